@@ -61,6 +61,7 @@ func cmdCheck(args []string) int {
 	only := fs.String("func", "", "only functions whose name contains this")
 	dump := fs.Bool("dump", false, "dump every SMT query")
 	verbose := fs.Bool("v", false, "verbose")
+	scratch := fs.String("scratch", "", "write evidence and out/ below this directory instead of the verif root (self-test)")
 	fs.Parse(args)
 	t0 := time.Now()
 	seed := 0
@@ -108,11 +109,18 @@ func cmdCheck(args []string) int {
 		for _, k := range fv.oblOrder {
 			ob := fv.obls[k]
 			for i, q := range ob.Queries {
+				if ob.Cover && i > 0 {
+					break // one job per cover obligation; it walks the queries itself
+				}
 				jobs = append(jobs, job{fv, ob, q, i})
 			}
 		}
 	}
-	outDir := filepath.Join(*verif, "out", *prop)
+	outRoot := *verif
+	if *scratch != "" {
+		outRoot = *scratch
+	}
+	outDir := filepath.Join(outRoot, "out", *prop)
 	os.RemoveAll(outDir)
 	os.MkdirAll(outDir, 0o755)
 	var wg sync.WaitGroup
@@ -125,6 +133,18 @@ func cmdCheck(args []string) int {
 		go func(j job) {
 			defer wg.Done()
 			defer func() { <-sem }()
+			if j.ob.Cover {
+				// reachability: satisfied by the first query that is not refuted
+				for _, q := range j.ob.Queries {
+					text := j.fv.smtText(q, false)
+					r := solve(text, 3*time.Second, false)
+					q.Result, q.Solver, q.Ms, q.SMT = r.result, r.solver, r.ms, text
+					if r.result != "unsat" {
+						break
+					}
+				}
+				return
+			}
 			text := j.fv.smtText(j.q, true)
 			if *dump {
 				dumpQuery(filepath.Join(outDir, "smt"), j.ob.Name, j.n, text)
@@ -134,7 +154,7 @@ func cmdCheck(args []string) int {
 				// reachability: only `unsat` matters (vacuity); do not wait for a model
 				to = 3 * time.Second
 			}
-			r := solve(text, to, thorough && !j.ob.Cover)
+			r := solve2(text, j.fv.smtGround(j.q), to, thorough && !j.ob.Cover)
 			j.q.Result, j.q.Solver, j.q.Ms, j.q.Model, j.q.SMT = r.result, r.solver, r.ms, r.model, text
 			if os.Getenv("GOCV_DEBUG") != "" {
 				fmt.Fprintf(os.Stderr, "query %s.%d: %s by %s in %dms all=%v\n", j.ob.Name, j.n, r.result, r.solver, r.ms, r.all)
@@ -151,6 +171,19 @@ func cmdCheck(args []string) int {
 	var incompleteNotes []string
 	for _, fv := range fvs {
 		funcsUnder = append(funcsUnder, fv.shortName())
+		// an unrolled loop whose unwinding assertion is not proved was not fully explored
+		for _, k := range fv.oblOrder {
+			ob := fv.obls[k]
+			if ob.Kind != "unwind" {
+				continue
+			}
+			for _, q := range ob.Queries {
+				if q.Result != "unsat" {
+					fv.incomplete = append(fv.incomplete, "unwinding assertion not proved: "+ob.Text)
+					break
+				}
+			}
+		}
 		inc := len(fv.incomplete) > 0
 		if inc {
 			incompleteNotes = append(incompleteNotes, fmt.Sprintf("%s: %s", fv.shortName(), strings.Join(uniq(fv.incomplete), "; ")))
@@ -161,7 +194,7 @@ func cmdCheck(args []string) int {
 			if ob.Cover {
 				r.Status = "vacuous"
 				for _, q := range ob.Queries {
-					if q.Result != "unsat" {
+					if q.Result != "unsat" && q.Result != "" {
 						r.Status = "covered"
 						r.Solver = q.Solver
 					}
@@ -234,7 +267,7 @@ func cmdCheck(args []string) int {
 	}
 	var viols []violation
 	var knownLines []string
-	replayDir := filepath.Join(*verif, "out", "replay", *prop)
+	replayDir := filepath.Join(outRoot, "out", "replay", *prop)
 	os.RemoveAll(replayDir)
 	report := func(r *oblResult, name, why string) {
 		if kf := isKnown(name); kf != nil {
@@ -269,7 +302,7 @@ func cmdCheck(args []string) int {
 		}
 	}
 	// bounded stand-ins (labelled bounded, never counted as proved)
-	bounded := runBounded(*prop, *tier, *repo, *verif)
+	bounded := runBounded(*prop, *tier, *repo, *verif, outRoot)
 	for _, b := range bounded {
 		if b.failed {
 			name := *prop + "/bounded:" + b.Name
@@ -343,7 +376,7 @@ func cmdCheck(args []string) int {
 		"wall_s":      time.Since(t0).Seconds(),
 		"violations":  len(viols),
 	}
-	evPath := filepath.Join(*verif, "evidence", *prop+".json")
+	evPath := filepath.Join(outRoot, "evidence", *prop+".json")
 	os.MkdirAll(filepath.Dir(evPath), 0o755)
 	data, _ := json.MarshalIndent(ev, "", " ")
 	os.WriteFile(evPath, data, 0o644)
@@ -446,9 +479,9 @@ func writeReplay(dir, prop, name, why string, r *oblResult, repo, verif string) 
 	}
 	os.WriteFile(p, []byte(sb.String()), 0o644)
 	replayed := false
-	if r != nil && r.failQuery != nil && r.failQuery.Result == "sat" {
-		replayed = tryReplay(prop, name, r, p, repo, verif)
-	}
+	// the replay templates search for a failing input on the real code; they are
+	// run for every failed obligation, with or without a solver model
+	replayed = tryReplay(prop, name, r, p, repo, verif)
 	return p, replayed
 }
 
